@@ -500,7 +500,7 @@ func userVisibleSameMap(c *core.Ctx) {
 		// skip wrappers that embed the interface
 		embeds := false
 		for i := 0; i < st.NumFields(); i++ {
-			if st.Field(i).Embedded() {
+			if st.Field(i).Embedded() && types.IsInterface(st.Field(i).Type()) {
 				embeds = true
 			}
 		}
@@ -514,6 +514,14 @@ func userVisibleSameMap(c *core.Ctx) {
 		}
 		for _, acc := range []string{"ResponseHeader", "ResponseTrailer"} {
 			fd := p.FuncDecl(core.ConnectPath, name+"."+acc)
+			if fd == nil {
+				// promoted from an embedded struct that holds what the conn types share
+				if obj, _, _ := types.LookupFieldOrMethod(types.NewPointer(named), true, p.Connect.Types, acc); obj != nil {
+					if m, isFunc := obj.(*types.Func); isFunc {
+						fd = p.Decl(m)
+					}
+				}
+			}
 			if fd == nil {
 				c.Unresolved(name+"."+acc, "accessor not declared")
 				continue
